@@ -276,6 +276,13 @@ pub fn run(ctx: &Ctx) -> Finish {
     // (a) as_minimization_problem
     let mut objs: Vec<Option<FnRep>> = vec![None];
     objs.extend(family_medium().into_iter().filter(|f| *f != FnRep::Unset).map(Some));
+    // coefficients below machine epsilon: negation is exact, they must survive the conversion
+    let tiny = 2f64.powi(-60);
+    objs.push(Some(FnRep::Lin { terms: vec![(1, tiny), (2, 1.0)], c: 0.0 }));
+    objs.push(Some(FnRep::Lin { terms: vec![(2, -tiny)], c: tiny }));
+    objs.push(Some(FnRep::Quad { entries: vec![(1, 2, tiny), (2, 2, 1.0)], lin: Some((vec![(1, -tiny)], 0.5)) }));
+    objs.push(Some(FnRep::Poly { terms: vec![(vec![1, 2, 1], tiny), (vec![2], -tiny), (vec![], 1.0)] }));
+    objs.push(Some(FnRep::Const(tiny)));
     ctx.note("objectives", json!(objs.len()));
     ctx.par(objs.len(), |l, i| {
         for sense in [SENSE_MIN, SENSE_MAX] {
